@@ -6,6 +6,11 @@
  *                                  contracts of the vtable function pointers (units/C01/allocator.c)
  * In this version of the library aws_mem_acquire/calloc/realloc abort on OOM (AWS_PANIC_OOM), so the
  * public entry points never return NULL / never fail; abort() is assume(false) in CBMC.
+ *
+ * `__CPROVER_was_freed` is not used: in CBMC 6.11 its assume-side precondition check fails for every replaced call
+ * (even `frees(p) ensures(was_freed(p))`), so release is expressed by the frees clause alone: a replaced release MAY
+ * free the block.  Use-after-release and double release in callers are still caught; "released exactly once" and
+ * leak freedom are not claimed.
  */
 #ifndef VERIF_CONTRACTS_ALLOCATOR_H
 #define VERIF_CONTRACTS_ALLOCATOR_H
@@ -17,6 +22,7 @@
 bool g_zero_on;
 size_t g_rz;
 size_t g_rsize;
+#define GHOST_RESET_ALLOC() do { g_zero_on = false; } while (0)
 
 /* ---- contracts every allocator vtable function is assumed to obey ---- */
 void *vt_mem_acquire_contract(struct aws_allocator *allocator, size_t size)
@@ -28,7 +34,7 @@ void vt_mem_release_contract(struct aws_allocator *allocator, void *ptr)
 __CPROVER_requires(ptr != NULL && __CPROVER_is_freeable(ptr))
 __CPROVER_assigns()
 __CPROVER_frees(ptr)
-__CPROVER_ensures(__CPROVER_was_freed(ptr))
+__CPROVER_ensures(1)
 ;
 void *vt_mem_calloc_contract(struct aws_allocator *allocator, size_t num, size_t size)
 __CPROVER_requires(num > 0 && size > 0 && !__CPROVER_overflow_mult(num, size))
@@ -37,12 +43,27 @@ __CPROVER_ensures(__CPROVER_return_value == NULL || __CPROVER_is_fresh(__CPROVER
 __CPROVER_ensures(__CPROVER_return_value != NULL && g_j < num * size ==> ((uint8_t *)__CPROVER_return_value)[g_j] == 0)
 ;
 
+/* realloc: either the same block (only when it does not have to grow) or a fresh block holding the old contents */
+void *vt_mem_realloc_contract(struct aws_allocator *allocator, void *ptr, size_t oldsize, size_t newsize)
+__CPROVER_requires(newsize > 0)
+__CPROVER_requires(ptr == NULL || __CPROVER_is_freeable(ptr))
+__CPROVER_requires(g_on ==> (ptr != NULL && g_k < oldsize ==> g_old == ((const uint8_t *)ptr)[g_k]))
+__CPROVER_assigns()
+__CPROVER_frees(ptr)
+__CPROVER_ensures(__CPROVER_return_value == NULL ||
+                  (newsize <= oldsize && ptr != NULL && __CPROVER_pointer_equals(__CPROVER_return_value, ptr)) ||
+                  __CPROVER_is_fresh(__CPROVER_return_value, newsize))
+__CPROVER_ensures(g_on && __CPROVER_return_value != NULL && ptr != NULL && g_k < oldsize && g_k < newsize ==>
+                  ((const uint8_t *)__CPROVER_return_value)[g_k] == g_old)
+;
+
 #ifdef VERIF_ALLOC_ENFORCE
 #    define ALLOC_REQ(a)                                                                                               \
         __CPROVER_requires(__CPROVER_is_fresh(a, sizeof(*(a))))                                                        \
         __CPROVER_requires(__CPROVER_obeys_contract((a)->mem_acquire, vt_mem_acquire_contract))                        \
         __CPROVER_requires(__CPROVER_obeys_contract((a)->mem_release, vt_mem_release_contract))                        \
-        __CPROVER_requires((a)->mem_calloc == NULL || __CPROVER_obeys_contract((a)->mem_calloc, vt_mem_calloc_contract))
+        __CPROVER_requires((a)->mem_calloc == NULL || __CPROVER_obeys_contract((a)->mem_calloc, vt_mem_calloc_contract))      \
+        __CPROVER_requires((a)->mem_realloc == NULL || __CPROVER_obeys_contract((a)->mem_realloc, vt_mem_realloc_contract))
 #else
 #    define ALLOC_REQ(a) __CPROVER_requires((a) != NULL)
 #endif
@@ -68,7 +89,37 @@ __CPROVER_requires(ptr == NULL || __CPROVER_is_freeable(ptr))
 __CPROVER_requires(g_zero_on ==> (ptr != NULL && g_rz < g_rsize ==> ((const uint8_t *)ptr)[g_rz] == 0))
 __CPROVER_assigns()
 __CPROVER_frees(ptr)
-__CPROVER_ensures(ptr != NULL ==> __CPROVER_was_freed(ptr))
+__CPROVER_ensures(1)
+;
+
+
+#ifdef VERIF_ALLOC_ENFORCE
+#    define REALLOC_PTR_REQ __CPROVER_requires(__CPROVER_is_fresh(ptr, sizeof(*ptr)))                                  \
+                            __CPROVER_requires(*ptr == NULL || __CPROVER_is_fresh(*ptr, oldsize))
+#else
+#    define REALLOC_PTR_REQ __CPROVER_requires(ptr != NULL) __CPROVER_requires(*ptr == NULL || __CPROVER_is_freeable(*ptr))
+#endif
+
+/* never fails in this version of the library (OOM aborts).  newsize == 0 releases. */
+int aws_mem_realloc(struct aws_allocator *allocator, void **ptr, size_t oldsize, size_t newsize)
+ALLOC_REQ(allocator)
+REALLOC_PTR_REQ
+__CPROVER_requires(g_on ==> (*ptr != NULL && g_k < oldsize ==> g_old == ((const uint8_t *)*ptr)[g_k]))
+__CPROVER_assigns(*ptr)
+__CPROVER_frees(*ptr)
+__CPROVER_ensures(__CPROVER_return_value == AWS_OP_SUCCESS)
+__CPROVER_ensures(newsize == 0 ==> *ptr == NULL)
+__CPROVER_ensures(newsize > 0 ==> ((newsize <= oldsize && __CPROVER_old(*ptr) != NULL && __CPROVER_pointer_equals(*ptr, __CPROVER_old(*ptr))) ||
+                                  __CPROVER_is_fresh(*ptr, newsize)))
+__CPROVER_ensures(g_on && newsize > 0 && __CPROVER_old(*ptr) != NULL && g_k < oldsize && g_k < newsize ==>
+                  ((const uint8_t *)*ptr)[g_k] == g_old)
+;
+
+/* common.c: memset + asm barrier.  Every byte is zero afterwards (witness g_rz). */
+void aws_secure_zero(void *pBuf, size_t bufsize)
+__CPROVER_requires(bufsize == 0 || pBuf == NULL || __CPROVER_w_ok(pBuf, bufsize))
+__CPROVER_assigns(bufsize > 0 && pBuf != NULL : __CPROVER_object_upto(pBuf, bufsize))
+__CPROVER_ensures(pBuf != NULL && g_rz < bufsize ==> ((const uint8_t *)pBuf)[g_rz] == 0)
 ;
 
 #endif
